@@ -252,6 +252,7 @@ class Encrypt(Machine):
                     "--key-id", self.num(op["kid"], (op["i"], "k")), "--context", ctx,
                     "--output-dir", host.path(op["out"]), "--hash-alg", op["hash"],
                     "--kms-script", world.KMS_SCRIPT, "--encrypt-script", world.ENCRYPT_SCRIPT]
+            argv = self.drop_defaults(argv, {"--hash-alg": "sha-256"}, op["i"])
             return host.cli(argv, kind="encrypt", faults=faults, full_main=(entry == "main"))
         plaintext = model["fws"][op["fw"]]
         if entry == "kms":
@@ -518,6 +519,7 @@ class Encrypt(Machine):
                     "--encrypted-key", host.path(f"cek{op['i']}.bin"), "--key-id", self.num(op["kid"], (op["i"], "k")),
                     "--kw-alg", op["kw"], "--output-dir", host.path(op["out"]),
                     "--encrypt-script", world.ENCRYPT_SCRIPT]
+            argv = self.drop_defaults(argv, {"--kw-alg": "direct"}, op["i"])
             o = host.cli(argv, kind="generate-info", faults=faults)
         else:
             def run():
